@@ -9,7 +9,7 @@ DRIVER = "c02"
 PROPS_MODULE = "OxyModel.Props.C10"
 AUDIT = "OxyModel/Audit/C10.lean"
 THEOREMS = ["C10.C10_range", "C10.C10_servable", "C10.C10_once_per_backoff", "C10.C10_outlier_share_not_up",
-            "C10.C10_membership_restores", "C10.C10_timer_bound", "C10.C10_outlier_loses", "C10.C10_converges_in_6"]
+            "C10.C10_outlier_means_mixed", "C10.C10_membership_restores", "C10.C10_timer_bound", "C10.C10_outlier_loses", "C10.C10_converges_in_6"]
 RACE = False
 RULE = ("scenario = a Rebalancer (scripted meters, exported API only) over a RoundRobin with 1-6 servers of configured weight 0..5000, "
         "driven by scripts of ratings (dyadic rationals: failing, recovering, flapping, all failing, exact ties at the cut), readiness "
